@@ -103,6 +103,7 @@ func genSession(r *lib.Rng, n int, mocks map[bool]*acc.Env) Item {
 		x.Label = "path:trailing-slash"
 	}
 	adm := acc.ScopeBearer(e.Cfg.Host, now, []string{"relay:admin"})
+	adm.Claims["exp"] = now + 100000 // stays valid when the case moves the clock
 	la := acc.Req{Route: "listallow", Method: "GET", Target: "/bids/allow", Auth: adm}
 	it := Item{Kind: "session"}
 	ops := []acc.Op{}
@@ -427,7 +428,7 @@ func genPath(r *lib.Rng) string {
 	case 0:
 		return []string{"", "/", "//", "///", "/session", "/session/", "/session//", "session/x", "session/x/", "/session/x/", "/session/x//", "//session/x",
 			"/session/a/b/c", "/session-x/a", "/sess%ion/a%2Fb", "/session/a b", "/session/a$b", "/se ssion/a", "/session\x00/a", "/é/a", "/session/é"}[r.Intn(21)]
-	case 1:
+	case 1, 2, 3:
 		n := r.Range(1, 3)
 		s := ""
 		for i := 0; i < n; i++ {
